@@ -54,7 +54,19 @@ Definition set_events (o : sop') : list kev :=
   | _, _ => []
   end.
 
+(* one recorded call of LoadOrStoreLazy (any schedule, any size of history): the value its constructor
+   returns when run, what the call returned, and how often the call ran its constructor (closure counter).
+   The clause "the lazy constructor runs at most once per successful insert" is judged per call, without
+   any search: never more than once, exactly once when the call reports stored (loaded = false, and then
+   the value returned is the constructed one), not at all when it reports loaded. *)
+Record lazy_call := { lz_key : Z; lz_v : Z; lz_actual : Z; lz_loaded : bool; lz_calls : nat }.
+
+Definition lazy_call_ok_b (c : lazy_call) : bool :=
+  if lz_loaded c then Nat.eqb (lz_calls c) 0
+  else Nat.eqb (lz_calls c) 1 && (lz_actual c =? lz_v c).
+
 Inductive case :=
+| LazyCalls (calls : list lazy_call)
 | SeqMap (steps : list (mop * mres * shape))
 | SeqSet (steps : list (sop * mres * shape))
 | HistMap (h : list mop') (ranges : list range_obs)
@@ -88,6 +100,7 @@ Definition hist_code (lin_ok ranges_ok : bool) : nat :=
 
 Definition check_case (c : case) : nat :=
   match c with
+  | LazyCalls calls => if forallb lazy_call_ok_b calls then 0 else 2
   | SeqMap steps => scan2 map_seq_step (sm0, []) steps 0 0
   | SeqSet steps => scan2 set_seq_step (sm0, []) steps 0 0
   | HistMap h rs =>
